@@ -95,11 +95,13 @@ def execute_case(case, seed):
     counter["last"] = None
     route = case.get("route", "on_modes")
     out = {"stage": None, "exc": None, "exc_name": None, "piquasso": False, "message": "", "result": None}
+    del P.ADAPTIVE_LOG[:]
 
     def fail(stage, e):
         out.update(
             stage=stage, exc=e, exc_name=type(e).__name__, piquasso=isinstance(e, PiquassoException),
             message=str(e)[:300], entered=counter["entered"], completed=counter["completed"], last=counter["last"],
+            adaptive_calls=len(P.ADAPTIVE_LOG), adaptive_bad=sum(1 for _, b in P.ADAPTIVE_LOG if b),
         )
         return out
 
@@ -137,7 +139,9 @@ def execute_case(case, seed):
                 result = simulator.execute_instructions(instructions, initial_state=init, shots=case["shots"])
         except Exception as e:  # noqa: BLE001
             return fail("execution", e)
-    out.update(stage="done", result=result, entered=counter["entered"], completed=counter["completed"])
+    out.update(stage="done", result=result, entered=counter["entered"], completed=counter["completed"],
+               adaptive_calls=len(P.ADAPTIVE_LOG), adaptive_bad=sum(1 for _, b in P.ADAPTIVE_LOG if b),
+               adaptive_seen=sorted({int(x[-1]) for x, _ in P.ADAPTIVE_LOG if len(x) and float(x[-1]).is_integer()}))
     return out
 
 
@@ -292,8 +296,10 @@ def _check_accept(ctx, rep, case, attribute=False):
 def _tier(ctx):
     if ctx.tier == "quick":
         # small on purpose (<= ~4 CPU-minutes): reject side on d = 2 only with 2 foreign classes per kind
-        return {"reject_d": (2,), "foreign_per_kind": 2, "accept_d": 3, "accept_c": 4, "adapt_d": (2, 3), "adapt_c": 3}
-    return {"reject_d": (1, 2, 3), "foreign_per_kind": None, "accept_d": 4, "accept_c": 5, "adapt_d": (2, 3, 4), "adapt_c": 5}
+        return {"reject_d": (2,), "foreign_per_kind": 2, "accept_d": 3, "accept_c": 4, "adapt_d": (2, 3), "adapt_c": 3,
+                "aparam_d": (2, 3), "aparam_c": (3,)}
+    return {"reject_d": (1, 2, 3), "foreign_per_kind": None, "accept_d": 4, "accept_c": 5, "adapt_d": (2, 3, 4), "adapt_c": 5,
+            "aparam_d": (1, 2, 3, 4), "aparam_c": (3, 4)}
 
 
 def _items(ctx):
@@ -318,6 +324,10 @@ def _items(ctx):
     for d in t["reject_d"]:
         items.append(("construct", d))
     for sim in P.SIMULATORS:
+        for d in t["aparam_d"]:
+            for c in t["aparam_c"]:
+                items.append(("adaptive_param", sim, d, c))
+    for sim in P.SIMULATORS:
         for d in range(1, t["accept_d"] + 1):
             for c in range(1, t["accept_c"] + 1):
                 items.append(("accept", sim, d, c, "numpy"))
@@ -336,13 +346,14 @@ def _items(ctx):
 def _ordered(items):
     """One representative of every kind first (their samples go to the evidence), then the
     heavy items before the light ones so that the pool stays balanced."""
-    weight = {"accept_conn": 0, "reject3": 1, "reject": 2, "adaptive": 3, "accept": 4, "construct": 5}
+    weight = {"accept_conn": 0, "reject3": 1, "reject": 2, "adaptive": 3, "accept": 4, "adaptive_param": 5, "construct": 6}
     head, seen = [], set()
-    for want in (("construct",), ("accept", "PureFockSimulator"), ("adaptive", "PureFockSimulator"), ("reject", "PassiveSimulator"),
+    for want in (("construct",), ("accept", "PureFockSimulator"), ("adaptive", "PureFockSimulator"), ("adaptive_param", "PassiveSimulator"),
+                 ("reject", "PassiveSimulator"),
                  ("accept", "GaussianSimulator"), ("reject", "GaussianSimulator")):
         for it in items:
             if it[: len(want)] == want and it not in seen and (it[0] != "reject" or (it[2] in (2, 3) and it[3] == 0 and it[4] == 3)) \
-                    and (it[0] not in ("accept", "adaptive") or (it[2], it[3]) == (2, 3)):
+                    and (it[0] not in ("accept", "adaptive", "adaptive_param") or (it[2], it[3]) == (2, 3)):
                 head.append(it)
                 seen.add(it)
                 break
@@ -389,7 +400,10 @@ def run(ctx, builddir):
         "_instruction_map, generic valid parameters) x every single-fault mutation (mode -1 / d / duplicated in every slot, "
         "arity +-1, preparation moved after a gate, every foreign instruction class at every position, every not-mid-circuit "
         "measurement before the end, shots in {0,-1,1.5,'2'}, shots=None with an unsupported measurement, initial_state of "
-        "2 wrong classes / d+-1, every documented parameter violation at every position); accept: every documented "
+        "2 wrong classes / d+-1, every documented parameter violation at every position; adaptive_param: every documented parameter "
+        "violation with a _validate rule x every frame (no measurement / mid-circuit ParticleNumberMeasurement on mode 0 or d-1 after a mixing "
+        "interferometer on 1..n photons / mid-circuit HomodyneMeasurement) x parameter = callable or expression string that is invalid iff the "
+        "last outcome == k for every k in 0..n and 'always', x shots in {None, 1, 2}, each with its all-valid control); accept: every documented "
         "(simulator, instruction, connector, d, cutoff, placement, 0/1 photon context, shots) minimal program and every "
         "adaptive shots=None program; a case is distinct by (simulator, d, rule-or-instruction, position, program shape) and "
         "non-trivial when the program reaches the simulator (mutations) or executes >= 1 simulation step (accept)"
@@ -397,6 +411,13 @@ def run(ctx, builddir):
     ctx.assume("'before any evolution' is decided by COMPLETED simulation steps (wrapper around every _instruction_map entry); an exception raised inside the first entered step counts as rejected (counter rejected_inside_first_step)")
     if ctx.tier == "quick":
         ctx.assume("quick tier bounds (kept small, ~4 CPU-minutes): reject side on d = 2 only, body depth <= 2 after the canonical prefix and <= 1 after the other prefixes, one mode placement per class, 2 foreign instruction classes per kind; accept side d <= 3, cutoff <= 4; adaptive programs d in {2, 3}, cutoff <= 3.  The thorough tier is a superset: d in {1, 2, 3}, two placements, every foreign class, depth-3 bodies over the representative alphabet, accept d <= 4 / cutoff <= 5, TF/JAX connectors, adaptive d <= 4 / cutoff <= 5")
+    ctx.assume("family adaptive_param (mc/c13_adaptive.py): a documented-invalid value delivered through an outcome-dependent parameter "
+               "(callable / expression string) only exists after the measurement it depends on, so 'before any evolution' cannot be demanded: "
+               "the oracle there is 'a PiquassoException is raised and no Result is returned' whenever the invalid value was handed to the "
+               "library on some branch (logged by the callable), and 'executes' when it was not (outcome not reached with these shots) and for "
+               "the control whose callable is valid on every branch.  Only table entries whose class overrides Instruction._validate are used "
+               "(SNAP.theta:length is raised inside the simulation step); FockSimulator and fermionic.GaussianSimulator have no mid-circuit "
+               "measurement and GaussianSimulator only continuous-outcome ones: there the callable is outcome-independent ('always invalid')")
     ctx.assume("shots mutations are {0, -1, 1.5, '2'}; True is an int in Python and np.int64 is refused by the library: neither is claimed by the statement")
     ctx.assume("documented-error table: mc/c13_documented_errors.py (basis raises_clause / must_sentence / error_message kept apart in the rule name)")
     ctx.assume("accept side uses default/valid parameters only (HomodyneMeasurement phi=0 on PureFockSimulator, Attenuator mean_thermal_excitation=0 on Fock simulators, consecutive ascending modes on fermionic.PureFockSimulator): restrictions announced by the library through NotImplementedCalculation / InvalidParameter texts are not counted as refusals")
@@ -406,13 +427,15 @@ def run(ctx, builddir):
     core.pmap(ctx, "mc.checks.c13", "work", items, builddir)
     c = ctx.counters
     return {
-        "states": c.get("base_programs", 0) + c.get("accept_programs", 0) + c.get("adaptive_branches", 0),
+        "states": c.get("base_programs", 0) + c.get("accept_programs", 0) + c.get("adaptive_branches", 0) + c.get("adaptive_param_programs", 0),
         "transitions": c.get("steps_run", 0) + c.get("reject_executions", 0),
         "traces_validated_against_impl": c.get("traces", 0),
         "paths": c.get("adaptive_branches", 0),
         "max_depth": c.get("max_depth", 0),
+        "adaptive_param_invalid_value_resolved": c.get("adaptive_param_invalid_resolved", 0),
         "explanation": "states = distinct valid base programs (reject side) + documented minimal programs (accept side) + "
-        "measurement-outcome branches reached by the adaptive shots=None programs; transitions = simulation steps the real "
+        "measurement-outcome branches reached by the adaptive shots=None programs + control programs of the adaptive_param "
+        "family (outcome-dependent parameter, valid on every branch); transitions = simulation steps the real "
         "simulators executed plus single-fault mutation edges (base program -> mutated request) executed; "
         "traces_validated = complete requests executed on the real implementation and judged by the oracle "
         "(Piquasso exception with zero completed steps / no exception)",
@@ -541,6 +564,145 @@ def _work_construct(ctx, rep, item):
             if o["stage"] == "execution":
                 ctx.count("construction_rule_raised_later")
     ctx.sample({"kind": "construct", "d": d, "rules": [e["id"] for e in DE.TABLE if e["when"] == "construction"][:4]})
+
+
+# ---- adaptive_param --------------------------------------------------------------------------
+
+
+def _aparam_expect(case, o):
+    """'reject' / 'accept': by_log -> decided by what the callables handed to the library on this run."""
+    if case["expect"] == "by_log":
+        return "reject" if o.get("adaptive_bad", 0) > 0 else "accept"
+    return case["expect"]
+
+
+def _aparam_verdict(case, o):
+    if _aparam_expect(case, o) == "reject":
+        if o["stage"] == "done":
+            return "adaptive_param_not_validated"
+        if not o["piquasso"]:
+            return "adaptive_param_wrong_exception_type"
+        return None
+    if o["stage"] == "done":
+        return None
+    return "adaptive_param_valid_refused" if o["piquasso"] else "adaptive_param_valid_crash"
+
+
+def _constant_twin(case):
+    prog, pos = [], None
+    for i, s_ in enumerate(case["program"]):
+        kw = {}
+        for k, val in s_.get("kw", {}).items():
+            if isinstance(val, dict) and val.get("$") in ("adaptive", "adaptive_expr"):
+                kw[k] = val["bad"]
+                pos = i
+            else:
+                kw[k] = val
+        prog.append(dict(s_, kw=kw))
+    return {"kind": "reject", "sim": case["sim"], "d": case["d"], "cutoff": case["cutoff"], "program": prog, "shots": case["shots"],
+            "init": None, "route": "on_modes", "rule": case["rule"], "pos": pos, "entry": case["entry"]}
+
+
+def _check_aparam(ctx, rep, case):
+    from mc import core
+
+    o = execute_case(case, ctx.seed)
+    ctx.count("traces")
+    ctx.count("adaptive_param_executions")
+    ctx.count("reject_executions" if case["selector"] != "never" else "accept_executions")
+    ctx.count("steps_run", o.get("completed", 0))
+    if o["stage"] == "construction" and case["selector"] == "never":
+        # the constructor itself consumes the parameter (e.g. DistinguishableNumberState iterates over the occupation
+        # numbers): that parameter cannot be given as a callable, nothing to check
+        ctx.count("adaptive_param_not_expressible_as_callable")
+        ctx.count("adaptive_param_not_expressible/%s/%s" % (case["entry"], o["exc_name"]))
+        return o
+    if o["stage"] == "construction":
+        raise core.HarnessError("HARNESS-SELFTEST C13 adaptive_param: the instruction could not be constructed with an "
+                                "outcome-dependent parameter: %s %s" % (case["entry"], _describe(o)))
+    if case["selector"] == "never" and o.get("adaptive_bad", 0):
+        raise core.HarnessError("HARNESS-SELFTEST C13 adaptive_param: control callable returned an invalid value")
+    if case["form"] == "callable" and o["stage"] == "done" and o.get("adaptive_calls", 0) == 0:
+        raise core.HarnessError("HARNESS-SELFTEST C13 adaptive_param: the callable was never resolved: %s" % json.dumps(case)[:300])
+    if o["stage"] != "done" and "An error occurred when resolving" in o["message"]:
+        raise core.HarnessError("HARNESS-SELFTEST C13 adaptive_param: the harness callable itself failed: %s" % o["message"])
+    v = _aparam_verdict(case, o)
+    if v is None:
+        if _aparam_expect(case, o) == "reject":
+            ctx.count("adaptive_param_rejected")
+            ctx.count("adaptive_param_rejected_with/" + o["exc_name"])
+            ctx.count("adaptive_param_rejected_after_completed_steps", 1 if o["completed"] > 0 else 0)
+        return o
+    if v == "adaptive_param_not_validated":
+        # constant twin: the same program with the invalid value given as a constant.  If that is accepted too, the
+        # defect is the validation rule itself (reject-side signature documented_invalid_accepted, e.g. known
+        # finding F29b), not the per-branch validation of resolved parameters.
+        twin = _constant_twin(case)
+        t = _check_reject(ctx, rep, twin)
+        if _reject_verdict(t) == "not_rejected":
+            ctx.count("adaptive_param_rule_itself_accepts_constant")
+            return o
+    sig = {"check": "C13", "sub": v, "rule": case["rule"]}
+    if v != "adaptive_param_not_validated":
+        sig["exc"] = o["exc_name"]
+        sig["simulator"] = case["sim"]
+    if case["form"] != "callable":
+        sig["form"] = case["form"]
+    want = ("a PiquassoException and no Result (the invalid value was resolved on a branch)" if _aparam_expect(case, o) == "reject"
+            else "no exception (the parameter is valid on every branch that was walked)")
+    msg = "%s d=%d cutoff=%d %s [%s, %s, selector=%r, shots=%r, photons=%s, measured mode=%s]: expected %s, got %s\nprogram=%s" % (
+        case["sim"], case["d"], case["cutoff"], case["entry"], case["variant"], case["form"], case["selector"], case["shots"],
+        case["photons"], case["measured"], want, _describe(o), [(s_["cls"], s_["modes"]) for s_ in case["program"]],
+    )
+    rep.report(sig, case, msg, lambda again: _aparam_verdict(case, again), v)
+    return o
+
+
+def _work_adaptive_param(ctx, rep, item):
+    """Documented parameter violations delivered through an outcome-dependent parameter: see mc/c13_adaptive.py"""
+    from mc import c13_adaptive as A
+
+    _, sim, d, c = item
+    ents, skipped = A.entries(sim)
+    ctx.count("adaptive_param_entries_without_validate_rule", len(skipped))
+    if not A.frames(sim, d, c, ctx.tier)[1:]:
+        ctx.count("adaptive_param_cells_without_mid_circuit_measurement")
+    twin = {}
+    nprog = nbad = 0
+    for key, controls, rejects in A.cases(sim, d, c, ctx.seed, ctx.tier):
+        ok_shots = set()
+        for case in controls:
+            o = _check_aparam(ctx, rep, case)
+            if o["stage"] == "construction":
+                continue
+            ctx.count("adaptive_param_programs")
+            nprog += 1
+            if o["stage"] == "done":
+                ok_shots.add(case["shots"])
+                ctx.counters["max_adaptive_param_outcomes_seen"] = max(ctx.counters.get("max_adaptive_param_outcomes_seen", 0), len(o.get("adaptive_seen", ())))
+        for case in rejects:
+            if case["shots"] not in ok_shots:
+                ctx.count("adaptive_param_skipped_no_control")
+                continue
+            tk = key[:4] + (case["selector"], case["shots"])
+            if case["expect"] == "by_callable_twin":
+                if tk not in twin:
+                    continue
+                case = dict(case, expect=twin[tk])
+            o = _check_aparam(ctx, rep, case)
+            exp = _aparam_expect(case, o)
+            if case["form"] == "callable":
+                twin[tk] = exp
+            if exp == "reject":
+                nbad += 1
+                ctx.count("adaptive_param_invalid_resolved")
+                ctx.note_distinct("aparam|%s|%d|%d|%s|%s|%s|%s|%s|%s|%s" % (sim, d, c, case["entry"], case["variant"], case["form"],
+                                                                      case["photons"], case["measured"], case["selector"], case["shots"]))
+            else:
+                ctx.count("adaptive_param_selector_not_reached")
+    if nprog and len(ctx.samples) < 1:
+        ctx.sample({"kind": "adaptive_param", "sim": sim, "d": d, "cutoff": c, "entries": [e["id"] for e in ents],
+                    "control_programs": nprog, "executions_with_invalid_value_resolved": nbad})
 
 
 # ---- accept --------------------------------------------------------------------------------
@@ -712,7 +874,9 @@ def _work_adaptive(ctx, rep, item):
 
 def replay(ctx, case, signature):
     rep = _Reporter(ctx)
-    if case.get("kind") == "reject":
+    if case.get("kind") == "adaptive_param":
+        o = _check_aparam(ctx, rep, case)
+    elif case.get("kind") == "reject":
         o = _check_reject(ctx, rep, case)
     else:
         o = _check_accept(ctx, rep, case)
